@@ -62,7 +62,7 @@ Proof. intros. unfold prim1. apply sat_do; [assumption | intro; apply sat_ret]. 
 
 (* case analysis of one primitive step *)
 Ltac prim_cases :=
-  unfold run_prim, do_close, do_write, do_read, set_pipe, pop_decision;
+  unfold run_prim, do_close, do_write, do_read, set_pipe, spend, grant, pop_decision;
   repeat match goal with
          | |- context [if ?c then _ else _] => destruct c eqn:?
          | |- context [match ?x with _ => _ end] => destruct x eqn:?
@@ -493,12 +493,15 @@ Proof.
   inversion H; subst. split; reflexivity.
 Qed.
 
+Lemma spend_trace : forall w, w_trace (spend w) = w_trace w.
+Proof. intros w. unfold spend. destruct (fresh (w_clk w)); reflexivity. Qed.
+
 Lemma do_read_last_cmd : forall w r w1, do_read w = (r, w1) -> last_cmd (w_trace w1) = last_cmd (w_trace w).
 Proof.
   intros w r w1 H. unfold do_read in H.
   destruct (negb (copen (w_conn w))); [inversion H; subst; reflexivity|].
   destruct (queue (w_srv w)); [ destruct (negb (sopen (w_srv w))); [|destruct (armed (w_conn w))] | ];
-    inversion H; subst; reflexivity.
+    inversion H; subst; try rewrite spend_trace; reflexivity.
 Qed.
 
 Lemma cmd_ok_last : forall e v w rp w1, run (cmd e v) w = (Ok rp, w1) -> last_cmd (w_trace w1) = Some v.
